@@ -1,0 +1,29 @@
+//go:build verif
+
+package store
+
+import "sync"
+
+// This file is only compiled with the `verif` build tag. It gives the
+// verification harness (outside this repository) a way to observe, delay or
+// interrupt the store at selected points. Without the tag, verif_off.go
+// provides an empty stand-in.
+
+var verifHookMu sync.RWMutex
+var verifHook func(site string, args ...any)
+
+// VerifSetHook registers the callback invoked at instrumented sites.
+func VerifSetHook(f func(site string, args ...any)) {
+	verifHookMu.Lock()
+	verifHook = f
+	verifHookMu.Unlock()
+}
+
+func verifEvent(site string, args ...any) {
+	verifHookMu.RLock()
+	f := verifHook
+	verifHookMu.RUnlock()
+	if f != nil {
+		f(site, args...)
+	}
+}
